@@ -20,6 +20,7 @@ RULE = (
     "Distinct = canonical JSON of the history; non-trivial = at least one stage is not a plain return."
 )
 REQUIRED = {
+    "mon:outcome.its-details-can-be-read": 500,
     "mon:rerun.clean-run-after-a-timed-out-one": 50,
     "mon:exactly-one-outcome-in-bracket": 1000,
     "mon:success-iff-clean": 1000,
@@ -168,6 +169,10 @@ class _ClosingSel(_Sel):
         self.reactor.callLater(0, lambda: None)
 
 
+LOG_TEXTS = ["report.txt", "caf\xe9 \u2603.txt", "\U0001f600.txt", "a\x00b\r\nc\x1b.txt", "100%s {x} %(y)s.txt",
+             "caf\udce9-\udcff.txt"]       # (the last: os.fsdecode() of a file name that is not UTF-8)
+
+
 def build_case(prog, reactor, stagelog):
     import testtools
     from twisted.internet import defer
@@ -199,6 +204,13 @@ def build_case(prog, reactor, stagelog):
                 from twisted.logger import Logger
                 from twisted.python.failure import Failure
                 Logger(namespace="tvm.c14").failure("logged-" + name, Failure(ValueError("logged-" + name)))
+            elif x.startswith("logmsg:"):
+                # plain messages (not errors) sent to Twisted's log, through both APIs: what a test logs on the way does
+                # not decide its outcome, whatever the text
+                from twisted.logger import Logger
+                text = LOG_TEXTS[int(x.split(":")[1])]
+                tlog.msg("opening " + text)
+                Logger(namespace="tvm.c14").info("processing {name}", name=text)
             elif x == "drop_failed":
                 defer.fail(RuntimeError("dropped-" + name))
             elif x == "expect_mismatch":
@@ -343,6 +355,13 @@ def x_history(ctx, case):
         else:
             ctx.check(ok and propagated is None, "exactly-one-outcome-in-bracket", detail)
         outcome = core[1] if ok else None
+        if ok:
+            # the outcome can be REPORTED: every detail the runner attached to it (captured log, tracebacks, logged
+            # errors) yields its bytes - a result that renders them (TextTestResult) would otherwise fail inside
+            # addError/addFailure and the outcome never reach the report
+            dets = log.of(*recorders.OUTCOMES)[0].payload["details"] or {}
+            unreadable = {k: v[1].decode("utf8", "replace") for k, v in dets.items() if v[0] == "?"}
+            ctx.check(not unreadable, "outcome.its-details-can-be-read", lambda: {"unreadable": unreadable, **detail()})
         # ---- reactor and observers clean, whatever happened ------------------------------------
         ctx.check(not reactor.getDelayedCalls() and not reactor.running, "after.no-pending-calls",
                   lambda: {"pending": [str(c) for c in reactor.getDelayedCalls()], **detail()})
@@ -689,6 +708,10 @@ def run(ctx):
             slot = rng.choice(STAGES + ["cleanups"])
             tgt = p[slot] if slot != "cleanups" else (rng.choice(p["cleanups"]) if p["cleanups"] else p["test"])
             tgt["do"] = list(tgt.get("do", [])) + ["late_cleanup"]
+        if rng.random() < 0.2:
+            slot = rng.choice(STAGES + ["cleanups"])
+            tgt = p[slot] if slot != "cleanups" else (rng.choice(p["cleanups"]) if p["cleanups"] else p["test"])
+            tgt["do"] = ["logmsg:%d" % rng.randrange(len(LOG_TEXTS))] + list(tgt.get("do", []))
         if rng.random() < 0.25:
             p["stop_at"] = rng.choice([0.1, 0.3, 0.6, 0.9, 1.1, 1.7, 2.3, 5.0])
         elif rng.random() < 0.3:
